@@ -94,21 +94,36 @@ static void one_op(void) {
     if (k == 1 && is_inf(a) && is_inf(b) && a->type == b->type) goto done;
     if (k == 2 && ((is_inf(a) && lp_value_sgn(b) == 0) || (is_inf(b) && lp_value_sgn(a) == 0))) goto done;
     if (k == 3 && (lp_value_sgn(b) == 0 || (is_inf(a) && is_inf(b)))) goto done;
-    sb_begin("val", name); sb_sp(); sb_val(a); sb_sp(); sb_val(b); sb_arrow();
-    if (k == 0) lp_value_add(&r, a, b); else if (k == 1) lp_value_sub(&r, a, b); else if (k == 2) lp_value_mul(&r, a, b); else lp_value_div(&r, a, b);
-    sb_sp(); sb_val(&r); sb_emit();
+    { /* destination: fresh (none), pre-used with a value of any kind, or an alias (copy) of an operand */
+      unsigned dk = rnd(4); char nm[16];
+      const lp_value_t* A2 = a; const lp_value_t* B2 = b;
+      if (dk == 1) { lp_value_destruct(&r); lp_value_construct_copy(&r, &pool[rnd(npool)]); }
+      else if (dk == 2) { lp_value_destruct(&r); lp_value_construct_copy(&r, a); A2 = &r; }
+      else if (dk == 3) { lp_value_destruct(&r); lp_value_construct_copy(&r, b); B2 = &r; }
+      snprintf(nm, sizeof nm, "%s@%c", name, "fpab"[dk]);
+      sb_begin("val", nm); sb_sp(); sb_val(a); sb_sp(); sb_val(b); sb_arrow();
+      if (k == 0) lp_value_add(&r, A2, B2); else if (k == 1) lp_value_sub(&r, A2, B2); else if (k == 2) lp_value_mul(&r, A2, B2); else lp_value_div(&r, A2, B2);
+      sb_sp(); sb_val(&r); sb_emit(); }
   } else if (op < 62) {
     int inv = chance(50);
     if (inv && lp_value_sgn(a) == 0) goto done;
-    sb_begin("val", inv ? "inv" : "neg"); sb_sp(); sb_val(a); sb_arrow();
-    if (inv) lp_value_inv(&r, a); else lp_value_neg(&r, a);
-    sb_sp(); sb_val(&r); sb_emit();
+    { unsigned dk = rnd(3); char nm[16]; const lp_value_t* A2 = a;
+      if (dk == 1) { lp_value_destruct(&r); lp_value_construct_copy(&r, &pool[rnd(npool)]); }
+      else if (dk == 2) { lp_value_destruct(&r); lp_value_construct_copy(&r, a); A2 = &r; }
+      snprintf(nm, sizeof nm, "%s@%c", inv ? "inv" : "neg", "fpa"[dk]);
+      sb_begin("val", nm); sb_sp(); sb_val(a); sb_arrow();
+      if (inv) lp_value_inv(&r, A2); else lp_value_neg(&r, A2);
+      sb_sp(); sb_val(&r); sb_emit(); }
   } else if (op < 68) {
     unsigned n = 1 + rnd(4);
     if (alg_degree(a) > 3) goto done;
-    sb_begin("val", "pow"); sb_sp(); sb_val(a); sb_sp(); sb_ulong(n); sb_arrow();
-    lp_value_pow(&r, a, n);
-    sb_sp(); sb_val(&r); sb_emit();
+    { unsigned dk = rnd(3); char nm[16]; const lp_value_t* A2 = a;
+      if (dk == 1) { lp_value_destruct(&r); lp_value_construct_copy(&r, &pool[rnd(npool)]); }
+      else if (dk == 2) { lp_value_destruct(&r); lp_value_construct_copy(&r, a); A2 = &r; }
+      snprintf(nm, sizeof nm, "pow@%c", "fpa"[dk]);
+      sb_begin("val", nm); sb_sp(); sb_val(a); sb_sp(); sb_ulong(n); sb_arrow();
+      lp_value_pow(&r, A2, n);
+      sb_sp(); sb_val(&r); sb_emit(); }
   } else if (op < 76) {
     if (is_inf(a)) goto done;
     unsigned k = rnd(3);
